@@ -26,7 +26,8 @@ def union_conflicts(path):
     if "<<<<<<< " not in s:
         return
     pat = re.compile(r"<<<<<<< [^\n]*\n(.*?)=======\n(.*?)>>>>>>> [^\n]*\n", re.S)
-    s2 = pat.sub(lambda m: m.group(1) + "".join(l for l in m.group(2).splitlines(True) if l not in m.group(1).splitlines(True)), s)
+    dedup = path.endswith("AcbModel.lean") or path.endswith("Main.lean")
+    s2 = pat.sub(lambda m: m.group(1) + "".join(l for l in m.group(2).splitlines(True) if not (dedup and l in m.group(1).splitlines(True))), s)
     open(full, "w").write(s2)
     print("union-resolved", path)
 for p in sys.argv[1:]:
